@@ -106,14 +106,36 @@ class _Stmts(ast.NodeTransformer):
             for x in ast.walk(recv):
                 if hasattr(x, 'ctx'):
                     x.ctx = ast.Load()
-            if len(node.value.elts) == 1:
-                call = ast.Call(func=ast.Attribute(value=recv, attr='append', ctx=ast.Load()),
-                                args=[node.value.elts[0]], keywords=[])
-            else:
-                call = ast.Call(func=ast.Attribute(value=recv, attr='extend', ctx=ast.Load()),
-                                args=[node.value], keywords=[])
-            return ast.copy_location(ast.Expr(value=call), node)
+            return self._appends(recv, node.value.elts, node)
         return node
+
+    def _is_list_ref(self, t):
+        return (isinstance(t, ast.Name) and t.id in self.list_names) or \
+            (isinstance(t, ast.Attribute) and isinstance(t.value, ast.Name) and t.value.id == 'self'
+             and t.attr in self.list_attrs)
+
+    def _appends(self, recv, elts, node):
+        out = []
+        for e in elts:
+            r = copy.deepcopy(recv)
+            for x in ast.walk(r):
+                if hasattr(x, 'ctx'):
+                    x.ctx = ast.Load()
+            call = ast.Call(func=ast.Attribute(value=r, attr='append', ctx=ast.Load()), args=[e], keywords=[])
+            out.append(ast.copy_location(ast.Expr(value=call), node))
+        return out
+
+    def visit_Expr(self, node):
+        v = node.value
+        # lst.extend([a, b])  ->  lst.append(a); lst.append(b)
+        if isinstance(v, ast.Call) and isinstance(v.func, ast.Attribute) and v.func.attr == 'extend' and \
+                len(v.args) == 1 and isinstance(v.args[0], (ast.List, ast.Tuple)) and v.args[0].elts and \
+                not any(isinstance(e, ast.Starred) for e in v.args[0].elts) and not v.keywords and \
+                (self._is_list_ref(v.func.value) or isinstance(v.func.value, (ast.Name, ast.Attribute))):
+            self.changed = True
+            return self._appends(v.func.value, v.args[0].elts, node)
+        r = self._split_ifexp(node, node.value, lambda val: ast.copy_location(ast.Expr(value=val), node))
+        return r if r is not None else node
 
     def visit_AnnAssign(self, node):
         if node.value is not None and node.simple and isinstance(node.target, ast.Name) or \
@@ -145,16 +167,26 @@ class _Stmts(ast.NodeTransformer):
                 return r
         return node
 
-    def visit_Expr(self, node):
-        r = self._split_ifexp(node, node.value, lambda v: ast.copy_location(ast.Expr(value=v), node))
-        return r if r is not None else node
-
     def visit_If(self, node):
         self.generic_visit(node)
         return node
 
     def visit_Assign(self, node):
         if len(node.targets) == 1:
+            t, v = node.targets[0], node.value
+            # lst = lst + [a, b]  (a python list held in a local / self attribute)  ->  appends
+            if self._is_list_ref(t) and isinstance(v, ast.BinOp) and isinstance(v.op, ast.Add) and \
+                    ast.unparse(v.left) == ast.unparse(t) and isinstance(v.right, ast.List) and v.right.elts and \
+                    not any(isinstance(e, ast.Starred) for e in v.right.elts):
+                self.changed = True
+                return self._appends(t, v.right.elts, node)
+            # lst[len(lst):] = [a, b]  ->  appends
+            if isinstance(t, ast.Subscript) and isinstance(t.slice, ast.Slice) and t.slice.upper is None and \
+                    t.slice.step is None and isinstance(t.slice.lower, ast.Call) and \
+                    ast.unparse(t.slice.lower) == 'len(%s)' % ast.unparse(t.value) and \
+                    isinstance(v, (ast.List, ast.Tuple)) and v.elts and not any(isinstance(e, ast.Starred) for e in v.elts):
+                self.changed = True
+                return self._appends(t.value, v.elts, node)
             r = self._split_ifexp(node, node.value,
                                   lambda v: ast.copy_location(ast.Assign(targets=copy.deepcopy(node.targets), value=v), node))
             if r is not None:
@@ -223,6 +255,14 @@ class _Tests(ast.NodeTransformer):
     visit_AsyncFunctionDef = visit_Lambda = visit_ClassDef = visit_FunctionDef
 
     def _test(self, t):
+        # 0 == x / 'U' == b.btype / None is not x: the constant goes right (comparison mirrored for < >)
+        if isinstance(t, ast.Compare) and len(t.ops) == 1 and isinstance(t.left, ast.Constant) and \
+                not isinstance(t.comparators[0], ast.Constant):
+            mir = {ast.Eq: ast.Eq, ast.NotEq: ast.NotEq, ast.Is: ast.Is, ast.IsNot: ast.IsNot, ast.Lt: ast.Gt,
+                   ast.Gt: ast.Lt, ast.LtE: ast.GtE, ast.GtE: ast.LtE}.get(type(t.ops[0]))
+            if mir is not None:
+                self.changed = True
+                return ast.copy_location(ast.Compare(left=t.comparators[0], ops=[mir()], comparators=[t.left]), t)
         if isinstance(t, ast.UnaryOp) and isinstance(t.op, ast.Not):
             inner = t.operand
             if isinstance(inner, ast.UnaryOp) and isinstance(inner.op, ast.Not):
@@ -441,14 +481,19 @@ def _list_locals(fn):
                 if isinstance(x, ast.Name):
                     vals.setdefault(x.id, []).append(None)
 
-    def listy(v):
-        return isinstance(v, (ast.List, ast.ListComp)) or \
-            (isinstance(v, ast.Call) and isinstance(v.func, ast.Name) and v.func.id in ('list', 'sorted', 'flat'))
-    return frozenset(k for k, vs in vals.items() if vs and all(v is not None and listy(v) for v in vs)
-                     and k not in _params(fn))
+    def listy(v, k=None):
+        if isinstance(v, (ast.List, ast.ListComp)):
+            return True
+        if isinstance(v, ast.Call) and isinstance(v.func, ast.Name) and v.func.id in ('list', 'sorted', 'flat'):
+            return True
+        # k = k + [..]: stays a list if it was one
+        return k is not None and isinstance(v, ast.BinOp) and isinstance(v.op, ast.Add) and \
+            isinstance(v.left, ast.Name) and v.left.id == k and isinstance(v.right, (ast.List, ast.ListComp))
+    return frozenset(k for k, vs in vals.items() if vs and all(v is not None and listy(v, k) for v in vs)
+                     and any(listy(v) for v in vs) and k not in _params(fn))
 
 
-def normalize_function(fn, resolver=None, list_attrs=frozenset()):
+def normalize_function(fn, resolver=None, list_attrs=frozenset(), consts=None, class_consts=None):
     """-> (new FunctionDef, changed)"""
     new = copy.deepcopy(fn)
     changed = False
@@ -462,6 +507,7 @@ def normalize_function(fn, resolver=None, list_attrs=frozenset()):
     tt = _Tests()
     new.body = _flat([tt.visit(s) for s in new.body])
     changed |= tt.changed
+    changed |= _walrus(new)
     # N5 / N6 (iterate: an alias of an alias)
     for _round in range(4):
         counts, single = _binding_counts(new)
@@ -509,9 +555,13 @@ def normalize_function(fn, resolver=None, list_attrs=frozenset()):
         # drop the now-unused definitions
         new.body = _drop_defs(new.body, {id(single[k]) for k in table})
         changed = True
-    # N15 / N16: a temporary that only carries the returned value
+    # N17, N15 / N16
+    changed |= _paired_temps(new)
     ch15 = _return_temps(new)
     changed |= ch15
+    ex = _Exprs(consts, class_consts)
+    new.body = _flat([ex.visit(s_) for s_ in new.body])
+    changed |= ex.changed
     # N6
     counts, single = _binding_counts(new)
     table = {}
@@ -543,6 +593,124 @@ def normalize_function(fn, resolver=None, list_attrs=frozenset()):
         ast.fix_missing_locations(new)
         return new, True
     return fn, False
+
+
+def _walrus(fn):
+    """N19  if (x := E) <cmp> ..:   ->   x = E; if x <cmp> ..:   (the walrus is the first thing the test evaluates)"""
+    changed = [False]
+
+    def first_eval(t):
+        # the sub-expression evaluated first, unconditionally
+        while True:
+            if isinstance(t, ast.BoolOp):
+                t = t.values[0]
+            elif isinstance(t, ast.UnaryOp):
+                t = t.operand
+            elif isinstance(t, ast.Compare):
+                t = t.left
+            else:
+                return t
+
+    def block(stmts):
+        i = 0
+        while i < len(stmts):
+            s_ = stmts[i]
+            if isinstance(s_, ast.If):
+                fe = first_eval(s_.test)
+                if isinstance(fe, ast.NamedExpr):
+                    asg = ast.copy_location(ast.Assign(targets=[ast.Name(id=fe.target.id, ctx=ast.Store())],
+                                                       value=fe.value), s_)
+
+                    class _R(ast.NodeTransformer):
+                        def visit_NamedExpr(self, node):
+                            if node is fe:
+                                return ast.copy_location(ast.Name(id=fe.target.id, ctx=ast.Load()), node)
+                            return node
+                    s_.test = _R().visit(s_.test)
+                    stmts.insert(i, asg)
+                    changed[0] = True
+                    i += 1
+            for fld in ('body', 'orelse', 'finalbody'):
+                sub = getattr(s_, fld, None)
+                if isinstance(sub, list) and not isinstance(s_, (ast.FunctionDef, ast.AsyncFunctionDef, ast.ClassDef)):
+                    block(sub)
+            for h in getattr(s_, 'handlers', []):
+                block(h.body)
+            i += 1
+    block(fn.body)
+    return changed[0]
+
+
+def _paired_temps(fn):
+    """N17  a temporary whose every read sits in the statement right after one of its (plain) definitions
+    --  t = E1; use(t) ... t = E2; use(t)  -- is folded into those statements (also when the name is
+    re-used in several branches)."""
+    changed = [False]
+    params = _params(fn)
+    cands = {}
+    for n in _walk_scope(fn):
+        if isinstance(n, ast.Name):
+            cands.setdefault(n.id, [0, 0])
+            cands[n.id][0 if isinstance(n.ctx, ast.Load) else 1] += 1
+    pairs = {}      # name -> [(block, index)]
+    bad = set()
+
+    def simple_stmt(s_):
+        return isinstance(s_, (ast.Assign, ast.AugAssign, ast.Expr, ast.Return)) or \
+            (isinstance(s_, ast.If) and True)
+
+    def loads_in(node, name):
+        return [x for x in ast.walk(node) if isinstance(x, ast.Name) and x.id == name and isinstance(x.ctx, ast.Load)]
+
+    def block(stmts):
+        for i, s_ in enumerate(stmts):
+            if isinstance(s_, ast.Assign) and len(s_.targets) == 1 and isinstance(s_.targets[0], ast.Name):
+                t = s_.targets[0].id
+                if i + 1 < len(stmts):
+                    nxt = stmts[i + 1]
+                    # the next statement's own expressions (for an If: its test only)
+                    parts = [nxt.test] if isinstance(nxt, (ast.If, ast.While)) else \
+                        [nxt] if isinstance(nxt, (ast.Assign, ast.AugAssign, ast.Expr, ast.Return)) else []
+                    ls = [x for p_ in parts for x in loads_in(p_, t)]
+                    inner = [x for p_ in parts for c in ast.walk(p_)
+                             if isinstance(c, (ast.Lambda, ast.ListComp, ast.GeneratorExp, ast.SetComp, ast.DictComp))
+                             for x in loads_in(c, t)]
+                    if len(ls) == 1 and not inner and not loads_in(s_.value, t):
+                        pairs.setdefault(t, []).append((stmts, i, ls[0]))
+                        continue
+                bad.add(t)
+            for fld in ('body', 'orelse', 'finalbody'):
+                sub = getattr(s_, fld, None)
+                if isinstance(sub, list) and not isinstance(s_, (ast.FunctionDef, ast.AsyncFunctionDef, ast.ClassDef)):
+                    block(sub)
+            for h in getattr(s_, 'handlers', []):
+                block(h.body)
+    block(fn.body)
+    for t, lst in pairs.items():
+        if t in bad or t in params or len(lst) < 2:
+            continue                       # single definitions are N5 / N15 / expand_locals territory
+        loads, stores = cands.get(t, [0, 0])
+        if loads != len(lst) or stores != len(lst):
+            continue                       # some other read or binding of the name exists
+        for stmts, i, use in lst:
+            pass
+        # substitute (from the back so that indices stay valid per block)
+        todo = [(stmts, stmts[i], use) for stmts, i, use in lst]
+        for stmts, asg, use in todo:
+            where = [k for k, x in enumerate(stmts) if x is asg]
+            if not where or where[0] + 1 >= len(stmts) or \
+                    not any(x is use for x in ast.walk(stmts[where[0] + 1])):
+                continue
+
+            class _S(ast.NodeTransformer):
+                def visit_Name(self, node):
+                    if node is use:
+                        return ast.copy_location(copy.deepcopy(asg.value), node)
+                    return node
+            stmts[where[0] + 1] = _S().visit(stmts[where[0] + 1])
+            del stmts[where[0]]
+            changed[0] = True
+    return changed[0]
 
 
 def _return_temps(fn):
@@ -748,6 +916,63 @@ def _flat(items):
         elif r is not None:
             out.append(r)
     return out
+
+
+class _Exprs(ast.NodeTransformer):
+    """N18  np.negative(x) -> -x ; np.transpose(x) -> x.T ; x.transpose() -> x.T ; np.sum(x, axis=a) -> x.sum(axis=a) ;
+       +k -> k for a literal k;  N20 module-level / class-level literal constants read through their name"""
+
+    def __init__(self, consts=None, class_consts=None):
+        self.changed = False
+        self.consts = consts or {}
+        self.class_consts = class_consts or {}
+
+    def visit_FunctionDef(self, node):
+        return node
+
+    visit_AsyncFunctionDef = visit_Lambda = visit_ClassDef = visit_FunctionDef
+
+    def visit_UnaryOp(self, node):
+        self.generic_visit(node)
+        if isinstance(node.op, ast.UAdd) and isinstance(node.operand, ast.Constant) and \
+                isinstance(node.operand.value, (int, float)):
+            self.changed = True
+            return ast.copy_location(node.operand, node)
+        return node
+
+    def visit_Name(self, node):
+        if isinstance(node.ctx, ast.Load) and node.id in self.consts:
+            self.changed = True
+            return ast.copy_location(copy.deepcopy(self.consts[node.id]), node)
+        return node
+
+    def visit_Attribute(self, node):
+        self.generic_visit(node)
+        if isinstance(node.ctx, ast.Load) and isinstance(node.value, ast.Name) and node.value.id == 'self' and \
+                node.attr in self.class_consts:
+            self.changed = True
+            return ast.copy_location(copy.deepcopy(self.class_consts[node.attr]), node)
+        return node
+
+    def visit_Call(self, node):
+        self.generic_visit(node)
+        f = node.func
+        if isinstance(f, ast.Attribute) and isinstance(f.value, ast.Name) and f.value.id in ('np', 'numpy'):
+            if f.attr == 'negative' and len(node.args) == 1 and not node.keywords:
+                self.changed = True
+                return ast.copy_location(ast.UnaryOp(op=ast.USub(), operand=node.args[0]), node)
+            if f.attr == 'transpose' and len(node.args) == 1 and not node.keywords:
+                self.changed = True
+                return ast.copy_location(ast.Attribute(value=node.args[0], attr='T', ctx=ast.Load()), node)
+            if f.attr in ('sum',) and len(node.args) >= 1 and isinstance(node.args[0], (ast.Name, ast.Attribute, ast.Subscript)):
+                self.changed = True
+                new = ast.Call(func=ast.Attribute(value=node.args[0], attr=f.attr, ctx=ast.Load()),
+                               args=node.args[1:], keywords=node.keywords)
+                return ast.copy_location(new, node)
+        if isinstance(f, ast.Attribute) and f.attr == 'transpose' and not node.args and not node.keywords:
+            self.changed = True
+            return ast.copy_location(ast.Attribute(value=f.value, attr='T', ctx=ast.Load()), node)
+        return node
 
 
 class _Keywords(ast.NodeTransformer):
